@@ -42,150 +42,150 @@ Theorem C18_stable_MP3 : forall fname header trailer,
   named_as C_MP3 fname -> family C_MP3 header trailer ->
   no_foreign_marker C_MP3 header = true ->
   detect fname header trailer = Some (cls_name C_MP3).
-Proof. intros. apply stable_MP3; assumption. Qed.
+Proof. intros fname header trailer Hn Hf Hm. exact (proj1 (stable_MP3 fname header trailer Hn Hf Hm)). Qed.
 Print Assumptions C18_stable_MP3.
 
 Theorem C18_stable_TrueAudio : forall fname header trailer,
   named_as C_TrueAudio fname -> family C_TrueAudio header trailer ->
   detect fname header trailer = Some (cls_name C_TrueAudio).
-Proof. intros. apply stable_TrueAudio; assumption. Qed.
+Proof. intros fname header trailer Hn Hf. exact (proj1 (stable_TrueAudio fname header trailer Hn Hf)). Qed.
 Print Assumptions C18_stable_TrueAudio.
 
 Theorem C18_stable_OggTheora : forall fname header trailer,
   named_as C_OggTheora fname -> family C_OggTheora header trailer ->
   detect fname header trailer = Some (cls_name C_OggTheora).
-Proof. intros. apply stable_OggTheora; assumption. Qed.
+Proof. intros fname header trailer Hn Hf. exact (proj1 (stable_OggTheora fname header trailer Hn Hf)). Qed.
 Print Assumptions C18_stable_OggTheora.
 
 Theorem C18_stable_OggSpeex : forall fname header trailer,
   named_as C_OggSpeex fname -> family C_OggSpeex header trailer ->
   no_foreign_marker C_OggSpeex header = true ->
   detect fname header trailer = Some (cls_name C_OggSpeex).
-Proof. intros. apply stable_OggSpeex; assumption. Qed.
+Proof. intros fname header trailer Hn Hf Hm. exact (proj1 (stable_OggSpeex fname header trailer Hn Hf Hm)). Qed.
 Print Assumptions C18_stable_OggSpeex.
 
 Theorem C18_stable_OggVorbis : forall fname header trailer,
   named_as C_OggVorbis fname -> family C_OggVorbis header trailer ->
   no_foreign_marker C_OggVorbis header = true ->
   detect fname header trailer = Some (cls_name C_OggVorbis).
-Proof. intros. apply stable_OggVorbis; assumption. Qed.
+Proof. intros fname header trailer Hn Hf Hm. exact (proj1 (stable_OggVorbis fname header trailer Hn Hf Hm)). Qed.
 Print Assumptions C18_stable_OggVorbis.
 
 Theorem C18_stable_OggFLAC : forall fname header trailer,
   named_as C_OggFLAC fname -> family C_OggFLAC header trailer ->
   no_foreign_marker C_OggFLAC header = true ->
   detect fname header trailer = Some (cls_name C_OggFLAC).
-Proof. intros. apply stable_OggFLAC; assumption. Qed.
+Proof. intros fname header trailer Hn Hf Hm. exact (proj1 (stable_OggFLAC fname header trailer Hn Hf Hm)). Qed.
 Print Assumptions C18_stable_OggFLAC.
 
 Theorem C18_stable_OggOpus : forall fname header trailer,
   named_as C_OggOpus fname -> family C_OggOpus header trailer ->
   no_foreign_marker C_OggOpus header = true ->
   detect fname header trailer = Some (cls_name C_OggOpus).
-Proof. intros. apply stable_OggOpus; assumption. Qed.
+Proof. intros fname header trailer Hn Hf Hm. exact (proj1 (stable_OggOpus fname header trailer Hn Hf Hm)). Qed.
 Print Assumptions C18_stable_OggOpus.
 
 Theorem C18_stable_FLAC : forall fname header trailer,
   named_as C_FLAC fname -> family C_FLAC header trailer ->
   detect fname header trailer = Some (cls_name C_FLAC).
-Proof. intros. apply stable_FLAC; assumption. Qed.
+Proof. intros fname header trailer Hn Hf. exact (proj1 (stable_FLAC fname header trailer Hn Hf)). Qed.
 Print Assumptions C18_stable_FLAC.
 
 Theorem C18_stable_AIFF : forall fname header trailer,
   named_as C_AIFF fname -> family C_AIFF header trailer ->
   detect fname header trailer = Some (cls_name C_AIFF).
-Proof. intros. apply stable_AIFF; assumption. Qed.
+Proof. intros fname header trailer Hn Hf. exact (proj1 (stable_AIFF fname header trailer Hn Hf)). Qed.
 Print Assumptions C18_stable_AIFF.
 
 Theorem C18_stable_MP4 : forall fname header trailer,
   named_as C_MP4 fname -> family C_MP4 header trailer ->
   no_foreign_marker C_MP4 header = true ->
   detect fname header trailer = Some (cls_name C_MP4).
-Proof. intros. apply stable_MP4; assumption. Qed.
+Proof. intros fname header trailer Hn Hf Hm. exact (proj1 (stable_MP4 fname header trailer Hn Hf Hm)). Qed.
 Print Assumptions C18_stable_MP4.
 
 Theorem C18_stable_WavPack : forall fname header trailer,
   named_as C_WavPack fname -> family C_WavPack header trailer ->
   detect fname header trailer = Some (cls_name C_WavPack).
-Proof. intros. apply stable_WavPack; assumption. Qed.
+Proof. intros fname header trailer Hn Hf. exact (proj1 (stable_WavPack fname header trailer Hn Hf)). Qed.
 Print Assumptions C18_stable_WavPack.
 
 Theorem C18_stable_Musepack : forall fname header trailer,
   named_as C_Musepack fname -> family C_Musepack header trailer ->
   detect fname header trailer = Some (cls_name C_Musepack).
-Proof. intros. apply stable_Musepack; assumption. Qed.
+Proof. intros fname header trailer Hn Hf. exact (proj1 (stable_Musepack fname header trailer Hn Hf)). Qed.
 Print Assumptions C18_stable_Musepack.
 
 Theorem C18_stable_MonkeysAudio : forall fname header trailer,
   named_as C_MonkeysAudio fname -> family C_MonkeysAudio header trailer ->
   detect fname header trailer = Some (cls_name C_MonkeysAudio).
-Proof. intros. apply stable_MonkeysAudio; assumption. Qed.
+Proof. intros fname header trailer Hn Hf. exact (proj1 (stable_MonkeysAudio fname header trailer Hn Hf)). Qed.
 Print Assumptions C18_stable_MonkeysAudio.
 
 Theorem C18_stable_OptimFROG : forall fname header trailer,
   named_as C_OptimFROG fname -> family C_OptimFROG header trailer ->
   detect fname header trailer = Some (cls_name C_OptimFROG).
-Proof. intros. apply stable_OptimFROG; assumption. Qed.
+Proof. intros fname header trailer Hn Hf. exact (proj1 (stable_OptimFROG fname header trailer Hn Hf)). Qed.
 Print Assumptions C18_stable_OptimFROG.
 
 Theorem C18_stable_ASF : forall fname header trailer,
   named_as C_ASF fname -> family C_ASF header trailer ->
   no_foreign_marker C_ASF header = true ->
   detect fname header trailer = Some (cls_name C_ASF).
-Proof. intros. apply stable_ASF; assumption. Qed.
+Proof. intros fname header trailer Hn Hf Hm. exact (proj1 (stable_ASF fname header trailer Hn Hf Hm)). Qed.
 Print Assumptions C18_stable_ASF.
 
 Theorem C18_stable_AAC : forall fname header trailer,
   named_as C_AAC fname -> family C_AAC header trailer ->
   no_foreign_marker C_AAC header = true ->
   detect fname header trailer = Some (cls_name C_AAC).
-Proof. intros. apply stable_AAC; assumption. Qed.
+Proof. intros fname header trailer Hn Hf Hm. exact (proj1 (stable_AAC fname header trailer Hn Hf Hm)). Qed.
 Print Assumptions C18_stable_AAC.
 
 Theorem C18_stable_AC3 : forall fname header trailer,
   named_as C_AC3 fname -> family C_AC3 header trailer ->
   no_foreign_marker C_AC3 header = true ->
   detect fname header trailer = Some (cls_name C_AC3).
-Proof. intros. apply stable_AC3; assumption. Qed.
+Proof. intros fname header trailer Hn Hf Hm. exact (proj1 (stable_AC3 fname header trailer Hn Hf Hm)). Qed.
 Print Assumptions C18_stable_AC3.
 
 Theorem C18_stable_SMF : forall fname header trailer,
   named_as C_SMF fname -> family C_SMF header trailer ->
   no_foreign_marker C_SMF header = true ->
   detect fname header trailer = Some (cls_name C_SMF).
-Proof. intros. apply stable_SMF; assumption. Qed.
+Proof. intros fname header trailer Hn Hf Hm. exact (proj1 (stable_SMF fname header trailer Hn Hf Hm)). Qed.
 Print Assumptions C18_stable_SMF.
 
 Theorem C18_stable_TAK : forall fname header trailer,
   named_as C_TAK fname -> family C_TAK header trailer ->
   detect fname header trailer = Some (cls_name C_TAK).
-Proof. intros. apply stable_TAK; assumption. Qed.
+Proof. intros fname header trailer Hn Hf. exact (proj1 (stable_TAK fname header trailer Hn Hf)). Qed.
 Print Assumptions C18_stable_TAK.
 
 Theorem C18_stable_DSF : forall fname header trailer,
   named_as C_DSF fname -> family C_DSF header trailer ->
   detect fname header trailer = Some (cls_name C_DSF).
-Proof. intros. apply stable_DSF; assumption. Qed.
+Proof. intros fname header trailer Hn Hf. exact (proj1 (stable_DSF fname header trailer Hn Hf)). Qed.
 Print Assumptions C18_stable_DSF.
 
 Theorem C18_stable_DSDIFF : forall fname header trailer,
   named_as C_DSDIFF fname -> family C_DSDIFF header trailer ->
   no_foreign_marker C_DSDIFF header = true ->
   detect fname header trailer = Some (cls_name C_DSDIFF).
-Proof. intros. apply stable_DSDIFF; assumption. Qed.
+Proof. intros fname header trailer Hn Hf Hm. exact (proj1 (stable_DSDIFF fname header trailer Hn Hf Hm)). Qed.
 Print Assumptions C18_stable_DSDIFF.
 
 Theorem C18_stable_WAVE : forall fname header trailer,
   named_as C_WAVE fname -> family C_WAVE header trailer ->
   detect fname header trailer = Some (cls_name C_WAVE).
-Proof. intros. apply stable_WAVE; assumption. Qed.
+Proof. intros fname header trailer Hn Hf. exact (proj1 (stable_WAVE fname header trailer Hn Hf)). Qed.
 Print Assumptions C18_stable_WAVE.
 
 (* all of them at once: which types use the marker assumption is Model.Score.assumes_no_foreign_marker *)
 Theorem C18_stable : forall k fname header trailer,
   named_as k fname -> family k header trailer -> marker_assumption (assumes_no_foreign_marker k) k header ->
   detect fname header trailer = Some (cls_name k).
-Proof. intros. apply stable_all; assumption. Qed.
+Proof. intros k fname header trailer Hn Hf Hm. exact (proj1 (stable_all k fname header trailer Hn Hf Hm)). Qed.
 Print Assumptions C18_stable.
 
 (* (c) easy=True picks the Easy counterpart of the same type (EasyMP3, EasyTrueAudio, EasyMP4; the type
@@ -193,14 +193,14 @@ Print Assumptions C18_stable.
 Theorem C18_easy_counterpart : forall k fname header trailer,
   named_as k fname -> family k header trailer -> marker_assumption (assumes_no_foreign_marker k) k header ->
   detect_easy fname header trailer = Some (easy_name k).
-Proof. intros. apply stable_all; assumption. Qed.
+Proof. intros k fname header trailer Hn Hf Hm. exact (proj2 (stable_all k fname header trailer Hn Hf Hm)). Qed.
 Print Assumptions C18_easy_counterpart.
 
 (* nameless streams, for the types whose magic stays at offset 0 whatever tags are added *)
 Theorem C18_nameless : forall k header trailer,
   family0 k header trailer -> marker_assumption (assumes_no_foreign_marker0 k) k header ->
   detect [] header trailer = Some (cls_name k) /\ detect_easy [] header trailer = Some (easy_name k).
-Proof. intros. apply nameless_all; assumption. Qed.
+Proof. intros k header trailer Hf Hm. exact (nameless_all k header trailer Hf Hm). Qed.
 Print Assumptions C18_nameless.
 
 
